@@ -392,8 +392,14 @@ def acc_family(ctx, rule, fv, who, seq_term, norm_term, n_term=None, k_term=None
               line_of(branchy[0]) if branchy else None)
     normaliser(ctx, rule, fv, who, norm_term, tv, bv)
     res = fv.term(fv.body.get("expr")) if fv.body.get("expr") else ("none",)
-    ctx.check(rule, "%s:result" % who, res == bv, "the bucket is returned",
-              "returns `%s`, not the accumulated vector" % show(res), line_of(fv.body))
+    hosted = fv.path in getattr(ctx.prog, "absorbed_into", {}).values()
+    if hosted:
+        # the accumulation now lives inside its former caller: the vector is consumed there (judged by that rule)
+        ctx.ok(rule, "%s:result" % who, "accumulated in place inside %s" % fv.path, line_of(fv.body))
+    else:
+        ctx.check(rule, "%s:result" % who, res == bv, "the bucket is returned",
+                  "returns `%s`, not the accumulated vector" % show(res), line_of(fv.body))
+    return bv
 
 
 def normaliser(ctx, rule, fv, who, norm_term, tv, bv):
@@ -1128,3 +1134,14 @@ def rule_pure_function(ctx, rule, fv, who):
     ctx.check(rule, "%s:single_exit" % who, not rets, "every path ends in the tail expression",
               "`%s` has an early `return`: that exit hands out a value the decode/table rules do not judge" % who,
               line_of(rets[0]) if rets else None)
+
+
+
+def is_value_select(x):
+    """an `if` / `match` that only chooses between side-effect-free values (`if let Some(v) = m.get(k) { *v } else { 0 }`)"""
+    from ..control import _is_pure
+    if x.get("k") == "if":
+        return x.get("else") is not None and _is_pure(x["then"]) and _is_pure(x["else"])
+    if x.get("k") == "match":
+        return all(_is_pure(a["body"]) and a.get("guard") is None for a in x.get("arms", []))
+    return False
